@@ -252,7 +252,7 @@ fn by_uint_vartime<const L: usize, const R: usize>(c: &mut Ctx) {
         }
         check!(c, call(|| x.div_rem_uint_vartime(&y)).map(|(a, b)| (ib(&a), ib(&b))), (q, r.clone()); n, d);
         check!(c, call(|| x.rem_uint_vartime(&y)).map(|a| ib(&a)), r; n, d);
-        c.known = None;
+        c.known = c.case_tag;
         let (q, r) = div_floor(&n, &d);
         let r = r.to_biguint().expect("floor remainder of a positive divisor is non-negative");
         check!(c, call(|| x.div_rem_floor_uint_vartime(&y)).map(|(a, b)| (ib(&a), ub(&b))), (q.clone(), r.clone()); n, d);
